@@ -1045,7 +1045,7 @@ func (r *fhRun) run(only map[int]bool) {
 		}
 		facts := func(kind string) string {
 			w, wmode, wexit, wtask, wskip := "-", "-", "-", "-", "0"
-			wk := "C" + fhStateName(fhDisplay(t))
+			wk := "C" + fhSumName(t)
 			if method == "timestamp" {
 				wk = "M" + fhStateName(t.Name)
 			}
@@ -1135,11 +1135,29 @@ func fhStateName(n string) string {
 	return n
 }
 
-// the MODEL's key for a state file: the model's tag is the name itself (`stateKey`: the hash is
-// idealised as injective), so the file of a name the harness generated — recognised by
-// recomputing xxh3 of every task name and label of the case — is rendered as
-// "<normalised>-<name>"; any other file name (a tree without fix N) is rendered as it is.
+// the harness's own copy of checksumFilename (fix F8A): the checksum file of a task without label is
+// stateFilename(task name); that of a labelled task is the normalised label, ".", and 16 hex digits of
+// xxh3 of the length-prefixed pair "<len(name)>:<name><label>"
+func fhPairEnc(t fhTask) string { return fmt.Sprintf("%d:%s%s", len(t.Name), t.Name, t.Label) }
+
+func fhSumName(t fhTask) string {
+	if t.Label == "" {
+		return fhStateName(t.Name)
+	}
+	return fmt.Sprintf("%s.%016x", fhNorm(t.Label), xxh3.HashString(fhPairEnc(t)))
+}
+
+// the MODEL's key for a state file: the model's tag is the hashed string itself (`stateKey`,
+// `sumKey`: the hash is idealised as injective), so the file of a name the harness generated —
+// recognised by recomputing xxh3 of every task name, label and (name, label) pair of the case — is
+// rendered as "<normalised>-<name>", resp. "<normalised label>.<len>:<name><label>"; any other file
+// name (a tree without fix N / F8A) is rendered as it is.
 func (r *fhRun) modelKey(file string) string {
+	for _, t := range r.d.Tasks {
+		if t.Label != "" && fhSumName(t) == file {
+			return fhNorm(t.Label) + "." + fhPairEnc(t)
+		}
+	}
 	for _, t := range r.d.Tasks {
 		for _, n := range []string{t.Name, t.Label} {
 			if n != "" && fhNorm(n) != n && fhStateName(n) == file {
@@ -1320,6 +1338,7 @@ func (g *fhGen) gen(maxLen int) fhCase {
 		pre  string // the file a `task:` call of this task needs
 	}
 	var infos []tinfo
+	twinMade := false
 	for i := 0; i < nt; i++ {
 		var t fhTask
 		for {
@@ -1333,6 +1352,10 @@ func (g *fhGen) gen(maxLen int) fhCase {
 		if g.chance(15) {
 			t.Label = g.pick([]string{"L", "x", "a-b", "lab el"})
 		}
+		// directed stream (c04): the second task is a TWIN of the first — same directory, same sources,
+		// method checksum — and the two have the same display name: equal labels, or the label of one is
+		// the name of the other.  Before fix F8A they shared one checksum file.
+		twin := g.prop == "c04" && i == 1 && len(d.Tasks[0].Sources) > 0 && (d.Tasks[0].Dir == "" || !included) && g.chance(12)
 		switch r := rng.Intn(100); {
 		case r < 45:
 			t.Method = ""
@@ -1350,6 +1373,23 @@ func (g *fhGen) gen(maxLen int) fhCase {
 		if !included && g.chance(dirPct) {
 			t.Dir = g.pick([]string{"sub", "sub2"})
 		}
+		if twin {
+			t0 := &d.Tasks[0]
+			t.Dir = t0.Dir
+			if t0.Method != "checksum" {
+				t0.Method = ""
+			}
+			t.Method = t0.Method
+			switch {
+			case g.chance(50):
+				if t0.Label == "" {
+					t0.Label = g.pick([]string{"L", "a-b", "lab el"})
+				}
+				t.Label = t0.Label
+			default:
+				t0.Label, t.Label = "", t0.Name
+			}
+		}
 		root := ""
 		if t.Dir != "" {
 			root = t.Dir + "/"
@@ -1364,6 +1404,10 @@ func (g *fhGen) gen(maxLen int) fhCase {
 				}
 				t.Sources = append(t.Sources, fhGlob{Glob: p, Neg: len(t.Sources) > 0 && g.chance(35), Tmpl: g.chance(20)})
 			}
+		}
+		if twin {
+			t.Sources = append([]fhGlob(nil), d.Tasks[0].Sources...)
+			twinMade = true
 		}
 		for _, p := range fhSrcPool {
 			if g.chance(60) {
@@ -1408,6 +1452,40 @@ func (g *fhGen) gen(maxLen int) fhCase {
 		}
 		d.Tasks = append(d.Tasks, t)
 		infos = append(infos, info)
+	}
+	// directed history for the twins: sources in place, the first task runs, then the second (which must
+	// NOT be reported up to date: its own commands never ran), an edit, and both again
+	if twinMade && g.chance(60) {
+		t1 := &d.Tasks[1]
+		t1.Generates, t1.Status = nil, nil
+		for k := range t1.Cmds {
+			t1.Cmds[k].Need = ""
+		}
+		add := func(st fhStep) {
+			st.Fail, st.Kill = -1, -1
+			if st.Kind == "inv" {
+				st.Yes, st.Now = true, int64(1000*(len(d.Steps)+1))
+			} else if st.Kind == "write" {
+				st.Mtime = int64(1000*len(d.Steps) + 500)
+			}
+			d.Steps = append(d.Steps, st)
+		}
+		src := g.pick(infos[0].pool)
+		add(fhStep{Kind: "write", Path: src, Content: g.content()})
+		if infos[0].flag != "" {
+			add(fhStep{Kind: "write", Path: infos[0].flag, Content: "f"})
+		}
+		if infos[0].pre != "" {
+			add(fhStep{Kind: "write", Path: infos[0].pre, Content: "p"})
+		}
+		add(fhStep{Kind: "inv", Task: 0, Mode: "run"})
+		add(fhStep{Kind: "inv", Task: 1, Mode: "run"})
+		if g.chance(50) {
+			add(fhStep{Kind: "write", Path: src, Content: g.content() + "y"})
+			add(fhStep{Kind: "inv", Task: rng.Intn(2), Mode: "run"})
+			add(fhStep{Kind: "inv", Task: rng.Intn(2), Mode: g.pick([]string{"run", "status", "listjson"})})
+		}
+		return d
 	}
 	// directed stream: a `task:` call that fails under --dry AFTER the task has stored a fingerprint —
 	// run with the needed file present, remove it, edit a source, --dry (the call fails: nothing may
@@ -1633,6 +1711,11 @@ func runFingerHist(c *Ctx, prop string) {
 			c.Hit("method:" + m)
 			if t.Label != "" {
 				c.Hit("shape:label")
+			}
+			for _, u := range d.Tasks {
+				if u.Name != t.Name && fhDisplay(u) == fhDisplay(t) {
+					c.Hit("shape:equal-display-name")
+				}
 			}
 			if strings.Contains(t.Name, ":") {
 				c.Hit("shape:included")
